@@ -713,7 +713,62 @@ def op_midx(r):
     r.object_store.write_midx()
 
 
+def _setup_onepack(path):
+    _setup_basic(path)
+    from dulwich.repo import Repo
+    r = Repo(path)
+    r.object_store.pack_loose_objects()
+    r.close()
+
+
+def op_locked_index(r):
+    from dulwich.index import locked_index
+    with locked_index(r.index_path()) as idx:
+        for i in range(40):
+            idx[b"li/file%03d.txt" % i] = _entry(r, b"x", b"li %d\n" % i)
+
+
+def op_pack_keep(r):
+    for p in r.object_store.packs:
+        p.keep(b"kept by the sweep " * 20)
+
+
+def op_write_pack_fn(r):
+    from dulwich.object_format import DEFAULT_OBJECT_FORMAT
+    from dulwich.pack import write_pack
+    objs = [(util.mk_blob(b"wp %d\n" % i * 30), None) for i in range(6)]
+    write_pack(os.path.join(r.object_store.pack_dir, "pack-" + "ab" * 20),
+               objs, DEFAULT_OBJECT_FORMAT)
+
+
+def _op_create_index(version):
+    def op(r):
+        pk = next(iter(r.object_store.packs))
+        pk.data.create_index(
+            os.path.join(r.object_store.pack_dir,
+                         "pack-" + "cd" * 20 + ".idx"), version=version)
+    return op
+
+
+def op_bitmaps(r):
+    refs = {k: r.refs[k] for k in r.refs.allkeys() if k != b"HEAD"}
+    r.object_store.generate_pack_bitmaps(refs)
+
+
+def op_commit_graph_fn(r):
+    from dulwich.commit_graph import write_commit_graph
+    write_commit_graph(r.controldir(), r.object_store, list(_ids(r)))
+
+
 ROUTINES = {
+    "locked_index": (_setup_basic, op_locked_index),
+    "pack_keep": (_setup_onepack, op_pack_keep),
+    "write_pack_fn": (_setup_basic, op_write_pack_fn),
+    "create_index_v1": (_setup_onepack, _op_create_index(1)),
+    "create_index_v2": (_setup_onepack, _op_create_index(2)),
+    "create_index_v3": (_setup_onepack, _op_create_index(3)),
+    "generate_pack_bitmaps": (_setup_onepack, op_bitmaps),
+    "write_commit_graph_fn": (_setup_basic, op_commit_graph_fn),
     "index_write": (_setup_basic, op_index_write),
     "index_write_skiphash": (_setup_basic, op_index_write_skiphash),
     "ref_set": (_setup_basic, op_ref_set),
@@ -754,6 +809,8 @@ SINGLE_FILE = {
     "add_alternate_path": ".git/objects/info/alternates",
     "index_write": ".git/index",
     "index_write_skiphash": ".git/index",
+    "locked_index": ".git/index",
+    "write_commit_graph_fn": ".git/objects/info/commit-graph",
 }
 SWEEP_KINDS = ["ENOSPC", "EIO", "EPERM", "KBI", "PARTIAL"]
 
@@ -794,8 +851,8 @@ def _skip(rel):
         return True
     if rel.startswith(".git/objects/pack/"):
         n = rel.rsplit("/", 1)[1]
-        return not (n.startswith("pack-") and n.endswith((".pack", ".idx"))
-                    or n == "multi-pack-index")
+        return not (n.startswith("pack-") and n.endswith(
+            (".pack", ".idx", ".keep", ".bitmap")) or n == "multi-pack-index")
     return False
 
 
